@@ -6,6 +6,9 @@ HERE = os.path.dirname(os.path.dirname(os.path.abspath(__file__)))
 
 # id -> (technique, level text, level note, design ref)
 CLAIMED = {
+ "C13": ("structural/def-use rules on the UniformDH big-integer dataflow, E7 role table of the obfs3 key derivation vs spec, closed guard sets for the magic scan, single-writer/ownership for the buffer hand-over, deadline typestate over go/ssa",
+         "Decides: even exponent before Exp, coin selects X / p-X, FillBytes into 192-byte buffers, 192-byte import check; INIT/RESP streams and magics per role as specified; whole-buffer scan with the 8194/8226 bounds and exact drop; reader rewired only on empty buffer and the buffer object never replaced; padding draws in [0,4097]; deadlines. Modular arithmetic, AES-CTR and byte-exact delivery are not decided.",
+         "go/types+go/ssa faithful; math/big semantics; checker/spec/obfs3.json", "DESIGN.md section 4, C13"),
  "C14": ("E7 expression trees of the key derivations and a role table (which stream each role sends/receives with) compared with spec terms; must-pass-through for magic/PADLEN with acceptance-set check; exact-read discipline; deadline typestate over go/ssa",
          "Decides conformance of the obfs2 key derivation, labels, constants and role assignment to the specification; that success requires the magic and PADLEN <= 8192 and accepts all of [0,8192]; that the handshake consumes exactly seed[16], header[8], padding[PADLEN] with io.ReadFull outside loops and sends seed | E(magic|padlen|padding) big-endian; deadlines armed/removed. Byte-exact delivery under segmentation is not decided.",
          "go/types+go/ssa faithful; checker/spec/obfs2.json transcribes the obfs2 spec", "DESIGN.md section 4, C14"),
